@@ -12,6 +12,7 @@ import (
 	"fmt"
 	"io"
 	"net"
+	"os"
 	"strings"
 	"time"
 )
@@ -48,6 +49,12 @@ type c08Scenario struct {
 	ID    int        `json:"id"`
 	Cfg   []c08Entry `json:"cfg"`
 	Conns []c08Step  `json:"conns"`
+	// Listener "socket": the configuration is served by honeytrap's own socket listener on
+	// loopback (model ports are mapped to free ports); the udp connections of the scenario are
+	// additionally delivered back to back (Burst rounds), the services reading DelayMs late.
+	Listener string     `json:"listener,omitempty"`
+	Scheds   []c08Sched `json:"scheds,omitempty"`
+	DelayMs  int        `json:"delay_ms,omitempty"`
 }
 
 type c08Obs struct {
@@ -58,15 +65,27 @@ type c08Obs struct {
 	Note   string `json:"note,omitempty"`
 }
 
-type c08Result struct {
-	ID    int      `json:"id"`
-	Obs   []c08Obs `json:"obs"`
-	Error string   `json:"error,omitempty"`
+// c08Sched is a delivery schedule generated from Delivery.tla: Order lists indices into Conns
+// (udp connections), sent in groups of Inflight back to back before any service reads.
+type c08Sched struct {
+	Order    []int `json:"order"`
+	Inflight int   `json:"inflight"`
 }
 
-func c08TOML(cfg []c08Entry) string {
+type c08Result struct {
+	ID  int      `json:"id"`
+	Obs []c08Obs `json:"obs"`
+	// SchedObs[s][k] is the observation of connection Scheds[s].Order[k]
+	SchedObs [][]c08Obs `json:"sched_obs,omitempty"`
+	Error    string     `json:"error,omitempty"`
+}
+
+func c08TOML(cfg []c08Entry) string { return c08TOMLFor(cfg, "verif-mem", nil, 0) }
+
+func c08TOMLFor(cfg []c08Entry, lst string, ports map[int]int, delay int) string {
 	var b strings.Builder
-	b.WriteString("[listener]\ntype=\"verif-mem\"\n[channel.cap]\ntype=\"verif-capture\"\nname=\"cap\"\n[[filter]]\nchannel=[\"cap\"]\n")
+	fmt.Fprintf(&b, "[listener]\ntype=%q\n", lst)
+	b.WriteString("[channel.cap]\ntype=\"verif-capture\"\nname=\"cap\"\n[[filter]]\nchannel=[\"cap\"]\n")
 	seen := map[string]bool{}
 	for _, e := range cfg {
 		for _, s := range e.Svcs {
@@ -75,16 +94,20 @@ func c08TOML(cfg []c08Entry) string {
 			}
 			seen[s.Name] = true
 			if len(s.Det) == 0 {
-				fmt.Fprintf(&b, "[service.%s]\ntype=\"verif-stub\"\nname=%q\n", s.Name, s.Name)
+				fmt.Fprintf(&b, "[service.%s]\ntype=\"verif-stub\"\nname=%q\ndelay_ms=%d\n", s.Name, s.Name, delay)
 			} else {
-				fmt.Fprintf(&b, "[service.%s]\ntype=\"verif-stub-det\"\nname=%q\nprefix=%q\n", s.Name, s.Name, strings.Join(s.Det, ""))
+				fmt.Fprintf(&b, "[service.%s]\ntype=\"verif-stub-det\"\nname=%q\nprefix=%q\ndelay_ms=%d\n", s.Name, s.Name, strings.Join(s.Det, ""), delay)
 			}
 		}
 	}
 	for _, e := range cfg {
-		addr := fmt.Sprintf("%s/%d", e.Proto, e.Port)
+		port := e.Port
+		if p, ok := ports[port]; ok {
+			port = p
+		}
+		addr := fmt.Sprintf("%s/%d", e.Proto, port)
 		if e.IP != "" {
-			addr = fmt.Sprintf("%s/%s:%d", e.Proto, e.IP, e.Port)
+			addr = fmt.Sprintf("%s/%s:%d", e.Proto, e.IP, port)
 		}
 		names := []string{}
 		for _, s := range e.Svcs {
@@ -209,7 +232,220 @@ func c08RunConn(m *memListener, c c08Conn) c08Obs {
 	return obs
 }
 
+// ---- delivery through honeytrap's own socket listener
+
+var portCounter = 0
+
+// freePort picks a port below the ephemeral range (client sockets of parallel lab processes
+// live there), spread by pid so that parallel shards do not choose the same one.
+func freePort() int {
+	for {
+		portCounter++
+		p := 12000 + (os.Getpid()*131+portCounter*7)%20000
+		l, err := net.Listen("tcp", fmt.Sprintf(":%d", p))
+		if err != nil {
+			continue
+		}
+		l.Close()
+		u, err := net.ListenUDP("udp", &net.UDPAddr{Port: p})
+		if err != nil {
+			continue
+		}
+		u.Close()
+		return p
+	}
+}
+
+// waitBound waits until the server's socket listener has bound the port (read from /proc/net:
+// probing by binding would race with the listener's own bind)
+func waitBound(proto string, port int) bool {
+	want := fmt.Sprintf(":%04X ", port)
+	deadline := time.Now().Add(5 * time.Second)
+	for time.Now().Before(deadline) {
+		for _, f := range []string{"/proc/net/" + proto, "/proc/net/" + proto + "6"} {
+			raw, err := os.ReadFile(f)
+			if err != nil {
+				continue
+			}
+			for _, ln := range strings.Split(string(raw), "\n")[1:] {
+				fl := strings.Fields(ln)
+				if len(fl) < 4 || !strings.HasSuffix(fl[1]+" ", want) {
+					continue
+				}
+				if proto == "udp" || fl[3] == "0A" {
+					return true
+				}
+			}
+		}
+		time.Sleep(2 * time.Millisecond)
+	}
+	return false
+}
+
+func obsFor(remote string, sent []byte) c08Obs {
+	obs := c08Obs{Sent: hex.EncodeToString(sent), Chosen: "none"}
+	recs := stubFor(remote)
+	obs.Ran = len(recs)
+	if len(recs) > 0 {
+		obs.Chosen = recs[0].Name
+		obs.Hex = recs[0].Hex
+		if !recs[0].Done {
+			obs.Note = "service did not reach end of stream"
+		}
+	}
+	return obs
+}
+
+func waitStub(remote string, d time.Duration) {
+	deadline := time.Now().Add(d)
+	for time.Now().Before(deadline) {
+		recs := stubFor(remote)
+		if len(recs) > 0 && recs[0].Done {
+			return
+		}
+		time.Sleep(500 * time.Microsecond)
+	}
+}
+
+func c08SocketConn(c c08Conn, port int, quiet time.Duration) c08Obs {
+	payload := c08Payload(c)
+	if c.Proto == "udp" {
+		u, err := net.DialUDP("udp", nil, &net.UDPAddr{IP: net.IPv4(127, 0, 0, 1), Port: port})
+		if err != nil {
+			return c08Obs{Note: "dial: " + err.Error()}
+		}
+		defer u.Close()
+		u.Write(payload)
+		remote := u.LocalAddr().String()
+		waitStub(remote, quiet)
+		return obsFor(remote, payload)
+	}
+	cl, err := net.DialTCP("tcp", nil, &net.TCPAddr{IP: net.IPv4(127, 0, 0, 1), Port: port})
+	if err != nil {
+		return c08Obs{Note: "dial: " + err.Error()}
+	}
+	defer cl.Close()
+	remote := cl.LocalAddr().String()
+	closed := make(chan struct{})
+	go func() {
+		io.Copy(io.Discard, cl)
+		close(closed)
+	}()
+	first := c.R
+	if first > len(payload) {
+		first = len(payload)
+	}
+	cl.Write(payload[:first])
+	deadline := time.Now().Add(5 * time.Second)
+	for time.Now().Before(deadline) && len(stubFor(remote)) == 0 {
+		select {
+		case <-closed:
+			deadline = time.Now()
+		case <-time.After(500 * time.Microsecond):
+		}
+	}
+	if first < len(payload) {
+		cl.Write(payload[first:])
+	}
+	cl.CloseWrite()
+	select {
+	case <-closed:
+	case <-time.After(quiet):
+	}
+	waitStub(remote, 20*time.Millisecond)
+	if len(stubFor(remote)) > 0 {
+		waitStub(remote, 5*time.Second)
+	}
+	return obsFor(remote, payload)
+}
+
+func c08RunSocket(sc c08Scenario) c08Result {
+	var res c08Result
+	for try := 0; try < 4; try++ {
+		res = c08RunSocketOnce(sc)
+		if !strings.HasPrefix(res.Error, "socket listener did not bind") {
+			break
+		}
+	}
+	return res
+}
+
+func c08RunSocketOnce(sc c08Scenario) c08Result {
+	res := c08Result{ID: sc.ID}
+	stubs.reset()
+	ports := map[int]int{}
+	for _, e := range sc.Cfg {
+		if _, ok := ports[e.Port]; !ok {
+			ports[e.Port] = freePort()
+		}
+	}
+	srv, err := startServerAny(c08TOMLFor(sc.Cfg, "socket", ports, sc.DelayMs))
+	if err != nil {
+		res.Error = err.Error()
+		return res
+	}
+	defer srv.Stop()
+	for _, e := range sc.Cfg {
+		if !waitBound(e.Proto, ports[e.Port]) {
+			res.Error = fmt.Sprintf("socket listener did not bind %s/%d", e.Proto, ports[e.Port])
+			return res
+		}
+	}
+	configured := func(c c08Conn) bool {
+		for _, e := range sc.Cfg {
+			if e.Proto == c.Proto && e.Port == c.Port {
+				return true
+			}
+		}
+		return false
+	}
+	quiet := time.Duration(sc.DelayMs+150) * time.Millisecond
+	for _, st := range sc.Conns {
+		if !configured(st.Conn) {
+			// nothing listens there: the kernel refuses, honeytrap never sees the connection
+			res.Obs = append(res.Obs, c08Obs{Chosen: "none", Note: "skipped"})
+			continue
+		}
+		res.Obs = append(res.Obs, c08SocketConn(st.Conn, ports[st.Conn.Port], quiet))
+	}
+	for _, sd := range sc.Scheds {
+		obs := make([]c08Obs, len(sd.Order))
+		for at := 0; at < len(sd.Order); at += sd.Inflight {
+			end := at + sd.Inflight
+			if end > len(sd.Order) {
+				end = len(sd.Order)
+			}
+			// one socket per datagram; the whole group is sent before any of it is awaited
+			socks := make([]*net.UDPConn, end-at)
+			for k := range socks {
+				c := sc.Conns[sd.Order[at+k]].Conn
+				u, err := net.DialUDP("udp", nil, &net.UDPAddr{IP: net.IPv4(127, 0, 0, 1), Port: ports[c.Port]})
+				if err != nil {
+					res.Error = err.Error()
+					return res
+				}
+				socks[k] = u
+			}
+			for k, u := range socks {
+				u.Write(c08Payload(sc.Conns[sd.Order[at+k]].Conn))
+			}
+			for _, u := range socks {
+				waitStub(u.LocalAddr().String(), quiet)
+			}
+			for k, u := range socks {
+				obs[at+k] = obsFor(u.LocalAddr().String(), c08Payload(sc.Conns[sd.Order[at+k]].Conn))
+				u.Close()
+			}
+		}
+		res.SchedObs = append(res.SchedObs, obs)
+	}
+	return res
+}
+
 func c08RunScenario(sc c08Scenario) c08Result {
+	if sc.Listener == "socket" {
+		return c08RunSocket(sc)
+	}
 	res := c08Result{ID: sc.ID}
 	stubs.reset()
 	srv, err := startServer(c08TOML(sc.Cfg))
